@@ -1,13 +1,37 @@
 (** C10 — recovery after any crash yields a prefix-consistent, readable state.
 
     Model: Model/Recovery.v (write path as micro-operations, [crash], [recover], [get]) over
-    Model/Fs.v.  Spec: Spec/CrashSpec.v ([prefix_consistent]).  The full statement (for every
-    workload, every annotation and every crash position the recovered reads are those of a
-    prefix of the client batches) is REFUTED on the current tree: F13, see [C10_prefix_refuted]. *)
+    Model/Fs.v.  Spec: Spec/CrashSpec.v ([prefix_consistent]).
+
+    Partial.  Proved for every sequence of micro-operations (hence every workload, every
+    annotation, every crash position): what recovery loads is, record for record and in order,
+    the sequence of records the engine accepted minus the part still in the WAL's userland
+    buffer — no gap, no reordering, no record that was never written
+    ([C10_recovered_log_prefix]).  The statement at batch granularity (the recovered reads are
+    those of a prefix of the client batches) is REFUTED on the current tree: F13,
+    [C10_prefix_refuted].  Not proved here (validated by the correspondence only): that the
+    LSM lookup over the recovered sources returns the last record of a key in that sequence
+    (C01's theorems about the read path), and that every recovered value pointer resolves
+    (value-log head persistence and reconcileManifest, as repaired by
+    fixes/C10-vlog-head-before-wal.md). *)
 From Coq Require Import List NArith.
 From NoKV Require Import Model.Fs Model.Recovery Spec.CrashSpec Proofs.CrashProofs.
 Import ListNotations.
 Local Open Scope N_scope.
+
+(** [t_log]: every record handed to the WAL writer, in order (ghost); [t_buf]: the records
+    still in the userland buffer; [recovered_log]: the records of the recovered sources,
+    oldest source first. *)
+Theorem C10_recovered_log_prefix : forall ms p seg nb, 0 < seg ->
+  let st := state_at p ms (init seg nb) in
+  recovered_log (recover (crash st)) ++ t_buf (snd st) = t_log (snd st).
+Proof. exact recovered_log_prefix. Qed.
+Print Assumptions C10_recovered_log_prefix.
+
+(** the structural invariant behind it holds in every reachable state *)
+Theorem C10_invariant : forall p ms seg nb, 0 < seg -> InvS (state_at p ms (init seg nb)).
+Proof. exact state_at_inv. Qed.
+Print Assumptions C10_invariant.
 
 (** F13: one transaction = several WAL records with nothing marking the batch boundary; a
     memtable rotation (or a bufio overflow) inside SetBatch writes the first records to the
@@ -17,6 +41,13 @@ Theorem C10_prefix_refuted :
     ~ prefix_consistent (client_batches w) keys (get (recover (crash (state_at p (compile sync w) (init seg nb))))).
 Proof. exact c10_refuted. Qed.
 Print Assumptions C10_prefix_refuted.
+
+(** non-vacuity (the crash point of the refutation: one record recovered, the log holds one) *)
+Theorem C10_example :
+  let st := state_at 3 (compile true w13) (init 1 1) in
+  (length (recovered_log (recover (crash st))), length (t_buf (snd st)), length (t_log (snd st))) = (1%nat, 0%nat, 1%nat).
+Proof. exact prefix_example. Qed.
+Print Assumptions C10_example.
 
 (** the boolean oracle used by the correspondence decides the specification *)
 Theorem C10_oracle_decides : forall bs keys rd,
